@@ -244,8 +244,8 @@ def _mutation_findings(o, strict=True, db=None):
                     out.append(("memo-key", "one-entry memo self.%s: the remembered value depends on %s, which the remembered key %s does not determine (a later call with another %s gets this entry)"
                                 % (e["attr"], ", ".join(show(a, 30) for a in missing[:3]), show(Tup(list(val.items[:-1])), 60), show(missing[0], 30)), e))
                     continue
-                if not strict:
-                    continue
+                # a complete key in the STORED tuple says nothing about how the entry is looked up on the next call (exact match, identity,
+                # allclose ...): a one-call exploration never sees the lookup succeed, so the store stays a reported re-binding
             out.append(("attr-store", "self.%s re-bound" % e["attr"], e))
         elif e["kind"] == "dict_store" and not e["in_init"] and (not strict or (e["obj"].cls.qualname, e["attr"]) not in TABLED_CACHES):
             # a per-object memo is unobservable - and accepted - when its key determines the stored value and nothing the value depends on
